@@ -207,7 +207,7 @@ func TestC11(t *testing.T) {
 
 	// ---------- (b) ----------
 	passedStateless := map[string]bool{}
-	search(t, rec, "ante", budget(300, 9000), 0, func(rt *rapid.T) {
+	search(t, rec, "ante", budget(300, 48000), 0, func(rt *rapid.T) {
 		ac := chain.New(chain.GenesisOpts{NumAccounts: 4, Balance: sdk.NewCoins(sdk.NewInt64Coin("ujkl", 1_000_000_000_000))})
 		defer ac.Close()
 		if _, bp := ac.Begin(6 * time.Second); bp != nil {
@@ -252,7 +252,7 @@ func TestC11(t *testing.T) {
 	rec.Note("(b) message types with at least one statelessly valid instance signed by the creator in this shard: %d of %d", len(passedStateless), len(urls))
 
 	// ---------- (c) ----------
-	search(t, rec, "foreign", budget(400, 32000), 40, func(rt *rapid.T) {
+	search(t, rec, "foreign", budget(400, 240000), 40, func(rt *rapid.T) {
 		w := newStorWorld(c, 5)
 		w.setParams(func(p *storagetypes.Params) { p.CollateralPrice = 1000 })
 		accs := make([]chain.Account, 5)
